@@ -336,7 +336,7 @@ theorem modifiers_sim (c : Cfg) (h25 : c.feat25 = true) (s : List Nat) (hs : ∀
       · exact .inr (.inr (.inr (.inr rfl)))
 
 theorem ModCh.plain {x : Nat} (h : ModCh x) : Plain x := by
-  rcases h with rfl | rfl | rfl | rfl | rfl <;> (refine ⟨?_, ?_, ?_, ?_, ?_⟩ <;> decide)
+  rcases h with rfl | rfl | rfl | rfl | rfl <;> (refine ⟨?_, ?_, ?_, ?_, ?_, ?_⟩ <;> decide)
 
 theorem applyMods_uni (fl : Flags) (m : Mods) :
     (applyMods fl m).unicode = fl.unicode ∧ (applyMods fl m).unicodeSets = fl.unicodeSets := by
